@@ -1,10 +1,10 @@
 SPECIFICATION MCSpec
 CONSTANTS
   MaxBits = 2
-  MaxL = 4
+  MaxL = 5
   MaxS = 3
-  MaxT = 7
-  B = 6
+  MaxT = 8
+  B = 8
   NMenu = {}
   BigN = {}
   XImpls <- XAll
